@@ -198,6 +198,32 @@ def run(ch: Checker) -> None:
         raise AnalysisError('anchor vanished: no self.pipeline_request.parse(...) / self.pipeline_response.parse(...) found')
 
     # ---------------- C04.8/9 (shared)
+    ch.rule('C04.12', 'credentials are asked for once per connection, where the connection is admitted: the proxy-auth plugin reaches its credential check from before_upstream_connection only -- not from a hook that runs for every '
+                      'later request (requests decrypted out of an authenticated, intercepted tunnel carry no Proxy-Authorization by design and would all be answered 407)', 1)
+    auth = prog.class_named('AuthPlugin')
+    methods12 = dict(list(auth.methods.items()) + list(auth.inlined_methods.items()))
+
+    def checks_credentials(fn_: FuncInfo, seen: Optional[set] = None) -> bool:
+        seen = seen if seen is not None else set()
+        if fn_.key in seen:
+            return False
+        seen.add(fn_.key)
+        for x in ast.walk(fn_.node):
+            if isinstance(x, ast.Attribute) and x.attr == 'auth_code':
+                return True
+            if isinstance(x, ast.Call) and (attr_chain(x.func) or '').split('.')[-1] == 'ProxyAuthenticationFailed':
+                return True
+            if isinstance(x, ast.Call) and isinstance(x.func, ast.Attribute) and attr_chain(x.func.value) == 'self' and x.func.attr in methods12:
+                if checks_credentials(methods12[x.func.attr], seen):
+                    return True
+        return False
+    PER_REQUEST_HOOKS = ('handle_client_request', 'handle_client_data', 'handle_upstream_chunk', 'on_client_data', 'on_access_log', 'on_upstream_connection_close')
+    entry12 = [nm for nm, f_ in auth.methods.items() if checks_credentials(f_) and (nm == 'before_upstream_connection' or nm in PER_REQUEST_HOOKS)]
+    ch.check(entry12 == ['before_upstream_connection'], 'C04.12', auth.methods.get('before_upstream_connection') or next(iter(auth.methods.values())), 'hooks that check credentials',
+             'the credential check is reached from before_upstream_connection only',
+             'the proxy-auth plugin checks credentials from %s: a hook that runs for every later request of a connection -- including each request decrypted out of an intercepted tunnel, which carries no '
+             'Proxy-Authorization header -- answers 407 into an already authenticated connection and closes it' % sorted(entry12))
+    ch.import_rules('C11', {'C11.9': 'C04.11'}, 'a later request on a TLS client connection is answered only if an incomplete TLS record does not tear the connection down')
     ch.import_rules('C07', {'C07.2b': 'C04.8'}, 'the last response on a persistent connection is complete only if the close waits for an empty buffer')
     ch.import_rules('C20', {'C20.2': 'C04.9'}, 'the connection stays usable while a response is being relayed only if writes to the client count as activity')
 
